@@ -562,6 +562,24 @@ class Session:
             return
         self.fire("cache:decoy")
         self.probe("closure:sibling")
+        if self.node["k"] == "closure" and self.node.get("kwvals"):
+            # the same through partial_apply followed by keyword arguments:
+            # f.partial_apply(*stored)(**kw), for both sets of stored arguments
+            try:
+                inner, _ = build.INNER_OF[id(self.gf)]
+                for nd in (self.node, node2):
+                    ins_i, _ = ref.sig(nd["inner"])
+                    st_j = [build.to_jax(v, t) for v, t in zip(nd["stored"], ins_i)]
+                    kwp = nd["inner"]["kwp"]
+                    kw_j = {n: build.to_jax(nd["kwvals"][n], kwp[n]) for n in sorted(kwp)}
+                    tr3 = inner.partial_apply(*st_j)(**kw_j).simulate(make_key(key_n), self.jargs(args, "py"))
+                    x3 = self.observe(tr3)
+                    lp3, _, _ = ref.density(nd, self.ref_args(args), x3)
+                    self.probe("closure:partial-then-kwargs")
+                    if np.isfinite(lp3) and not obs.close(tr3.get_score(), lp3):
+                        self.viol("C32.partial-kwargs", {"C32"}, i, rep, "f.partial_apply(%s)(**%s): score %s vs %.6f for the function with these stored arguments" % (nd["stored"], nd["kwvals"], np.asarray(tr3.get_score()), lp3))
+            except Exception as e:
+                self.viol("C32.sibling-crash", {"C32"}, i, rep, "partial_apply(...)(**kw) raised %s: %s" % (type(e).__name__, str(e)[:200]), "crash")
         if np.isfinite(lp2) and not obs.close(tr2.get_score(), lp2):
             self.viol("C32.sibling-closure", {"C32"}, i, rep, "second partial application of the same function with stored %s kw %s: score %s vs %.6f with its own stored arguments (the first application stores %s)" % (node2["stored"], node2.get("kwvals"), np.asarray(tr2.get_score()), lp2, self.node["stored"]))
 
